@@ -81,13 +81,14 @@ class SchemaLoaderXML(SchemaLoader):
     def _read_prologue(self):
         prologue_elements = self._get_elements_by_name(xml_constants.PROLOGUE_ELEMENT)
         if len(prologue_elements) == 1:
-            return prologue_elements[0].text
+            # An empty element has no text at all: the schema then has an empty prologue, not None.
+            return prologue_elements[0].text or ""
         return ""
 
     def _read_epilogue(self):
         epilogue_elements = self._get_elements_by_name(xml_constants.EPILOGUE_ELEMENT)
         if len(epilogue_elements) == 1:
-            return epilogue_elements[0].text
+            return epilogue_elements[0].text or ""
         return ""
 
     def _add_tags_recursive(self, new_tags, parent_tags):
